@@ -90,6 +90,11 @@ pub fn run(tier: &str) {
     rep.extra("sizes_in_blocks", json!(sizes));
     cases.par_iter().for_each(|(shape, bsz, cont)| {
         let mut base: Option<Marks> = None;
+        // the smallest file must hold several periods of the shape (a period is ~2.4 KB): at least 16 KiB
+        let sizes: Vec<usize> = sizes.iter().cloned().filter(|n| n * bsz >= 16384).collect();
+        if sizes.len() < 3 {
+            return;
+        }
         for &nb in &sizes {
             let (data, aligned) = build_shape(shape, *bsz, nb);
             let (path, ft) = match *cont {
